@@ -512,7 +512,41 @@ def job_history(cfg):
 
 
 # ----------------------------------------------------------------------------- driver
+def job_count(cfg):
+    """Length of the Cholesky list as an input axis: EVERY count in [lo, hi] (contiguous, no sampling) plus the given
+    extra counts; dense non-symmetric vectors, dense non-orthogonal C; each vector judged on its own, so a routine that
+    treats a block / remainder / last vector differently is named with the index of the first wrong vector."""
+    res = Result()
+    n, seed = cfg["n"], cfg["seed"]
+    ham = ham_handler(n)
+    rng = np.random.default_rng(1500 + seed)
+    C = dense_C(n, seed, 0)
+    h1 = rng.uniform(-1, 1, size=(2, n, n))
+    for g in list(range(cfg["lo"], cfg["hi"] + 1)) + list(cfg.get("extra", [])):
+        chol = rng.uniform(-1, 1, size=(g, n, n))
+        try:
+            out = lib_rotate(ham, 0.5, h1, chol, C)
+            err = np.abs(out["chol"] - np.einsum("pi,gpq,qj->gij", C, chol, C)).reshape(g, -1).max(axis=1)
+            e1 = float(np.abs(out["h1"] - np.einsum("pi,spq,qj->sij", C, h1, C)).max())
+        except Exception as ex:  # a valid input: raising is a violation, not a harness error
+            res.violation("rotate_orbs:raises", dict(cfg, n_chol=g), dict(exception=repr(ex)[:300]))
+            continue
+        res.add(states=1, transitions=1, evaluations=g + 2, traces=1)
+        res.nontrivial((n, "count", g))
+        res.guard("count_axis_lengths")
+        if g > 128:
+            res.guard("count_axis_lengths_above_128")
+        if not (err.max() <= 1e-11 and e1 <= 1e-11):
+            bad = [int(i) for i in np.nonzero(~(err <= 1e-11))[0]]
+            res.violation("rotate_orbs:congruence/depends-on-number-of-cholesky-vectors", dict(cfg, n_chol=g),
+                          dict(n_chol=g, first_wrong_vector=(bad[0] if bad else None), n_wrong_vectors=len(bad), err_chol=float(err.max()), err_h1=e1))
+    res.sample(dict(part="count", n=n, lo=cfg["lo"], hi=cfg["hi"], extra=list(cfg.get("extra", []))))
+    return res
+
+
 def job(cfg):
+    if cfg["part"] == "count":
+        return job_count(cfg)
     if cfg["part"] == "history":
         return job_history(cfg)
     return job_congruence(cfg) if cfg["part"] == "congruence" else job_covariance(cfg)
@@ -523,6 +557,12 @@ def configs(tier, seed):
     out = [dict(part="congruence", n=n, n_chol=g, seed=seed, tier=tier) for n in (2, 3) for g in (1, 2)]
     if thorough:
         out.append(dict(part="congruence", n=4, n_chol=2, seed=seed, tier=tier))
+    hi, step = (520, 40) if thorough else (280, 40)
+    for lo in range(1, hi + 1, step):
+        out.append(dict(part="count", n=2, lo=lo, hi=min(lo + step - 1, hi), seed=seed, tier=tier,
+                        extra=([] if thorough else [511, 512, 513]) if lo == 1 else []))
+    if thorough:
+        out.append(dict(part="count", n=3, lo=120, hi=140, extra=[255, 256, 257, 1023, 1024, 1025], seed=seed, tier=tier))
     sizes = [(2, 1, 1), (2, 2, 1), (3, 1, 1), (3, 2, 1), (3, 2, 2), (4, 2, 1)] + ([(3, 2, 0), (3, 3, 1), (4, 2, 2), (4, 3, 1)] if thorough else [])
     for (n, na, nb) in sizes:
         for kind in KINDS:
@@ -542,6 +582,8 @@ def configs(tier, seed):
 def run(ctx):
     ctx.rule = ("part A: (norb, n_chol) x slot {h1[0], h1[1], chol[g]} x X in {every E_ij, dense non-symmetric} x C in {every E_ab, every pair sum "
                 "E_ab+E_cd, dense non-orthogonal invertible}: rotate_orbs output = C^T X C in the slot, zero elsewhere; non-trivial = non-zero C^T X C; "
+                "part A': the LENGTH of the Cholesky list as an axis: every count 1..280 [1..520] contiguously (+ 511..513 [+ 255..257, 1023..1025 at norb 3]) "
+                "with dense non-symmetric vectors and a dense non-orthogonal C, each vector judged on its own against C^T L_g C; "
                 "part B: trial kind {rhf, uhf, ghf, noci} x size x container x every word up to the depth over {Givens(i,j,theta) theta in {pi/2, pi/3, 0.3}, "
                 "reflections, transpositions}; state = accumulated rotation (rounded hash); each transition = one library rotate_orbs on the already rotated "
                 "Hamiltonian; in every new state calc_overlap / calc_energy / calc_force_bias on 4 generic complex walkers and the dense trial, rotated "
@@ -558,10 +600,10 @@ def run(ctx):
     ctx.assume("multi-Slater and CI-type trials are tied to their own orbital basis and are outside the property's quantifier (orbital-based trials)")
     ctx.assume("quadratic-in-C / linear-in-X degree class: the unit x polarisation sets decide the congruence for every real C and X; dense members guard against other implementations")
     ctx.pmap(job, configs(ctx.tier, ctx.seed))
-    ctx.violations.sort(key=lambda v: (len(v["case"].get("word", [])), v["case"].get("n", 0)))
+    ctx.violations.sort(key=lambda v: (len(v["case"].get("word", [])), v["case"].get("n", 0), v["case"].get("n_chol", 0)))
     if ctx.violations:
         return
-    ctx.require_guard("congruence_cases_with_nonsymmetric_result", "confluence_checks", "states_with_nonsymmetric_rotation", "states_at_depth_3",
+    ctx.require_guard("count_axis_lengths", "count_axis_lengths_above_128", "congruence_cases_with_nonsymmetric_result", "confluence_checks", "states_with_nonsymmetric_rotation", "states_at_depth_3",
                       "carried_dict_states_measured", "history_words_same-source", "history_words_chained",
                       "history_calls_on_a_dict_rotated_from_before")
 
@@ -573,6 +615,10 @@ def replay(case):
         sub = {k: v for k, v in cfg.items() if k not in ("what", "flavour", "route", "word")}
         sub["only"] = [cfg["flavour"], cfg["route"], [int(x) for x in cfg["word"]]]
         r = job_history(sub)
+        return (len(r.violations) > 0, {"violations": [dict(signature=x["signature"], detail=x["detail"]) for x in r.violations][:1]})
+    if cfg["part"] == "count":
+        g = int(cfg["n_chol"])
+        r = job_count(dict({k: v for k, v in cfg.items() if k != "n_chol"}, lo=g, hi=g, extra=[]))
         return (len(r.violations) > 0, {"violations": [dict(signature=x["signature"], detail=x["detail"]) for x in r.violations][:1]})
     if cfg["part"] == "congruence":
         sub = {k: v for k, v in cfg.items() if k not in ("slot", "X", "C")}
